@@ -24,8 +24,7 @@ def callTargets (s : Summary) (args : List (Option Var)) (P : Pts) : List Obj :=
 
 /-- the summary of one particular run: final table `A` of the callee frame, objects `w` it wrote -/
 def summarizeFrom (A : Pts) (w : List Obj) (nparams ret : Nat) : Summary :=
-  { writes := dedup (w.filterMap (fun o => match o with
-                | .root j => some (j, false) | .inner j => some (j, true) | _ => none))
+  { writes := dedup (w.flatMap writeLevels)
     globals := dedup (w.filterMap globOf)
     retTop := dedup ((A.get ret).top.map srcOfObj)
     retKids := dedup ((A.get ret).kids.map srcOfObj)
